@@ -110,7 +110,10 @@ def scratch_dir():
 
 def fresh_path(tag="f"):
     _COUNTER[0] += 1
-    return os.path.join(scratch_dir(), "%s%d.nix" % (tag, _COUNTER[0]))
+    d = scratch_dir()
+    if not os.path.isdir(d):          # removed from outside while running (e.g. a clean-up of /dev/shm)
+        os.makedirs(d, exist_ok=True)
+    return os.path.join(d, "%s%d.nix" % (tag, _COUNTER[0]))
 
 
 def cleanup_scratch():
